@@ -930,6 +930,11 @@ class Tensor:
         if self._base is None:
             return self._grad
 
+        if self._constant:
+            # a view that was explicitly made constant never holds a gradient,
+            # even if its (non-constant) base does
+            return None
+
         if self._view_grad is not None and self._view_grad.base is self._base._grad:
             # view grad has been computed already
             return self._view_grad
@@ -1802,6 +1807,9 @@ class Tensor:
                         "mask": placeholder_mutant_view.creator.where,
                     },
                 )
+            # the mask-op's output must not infer its flag from its inputs either:
+            # the target keeps its own
+            placeholder_mutant_view._constant = inplace_target._constant
 
         # Connect public base tensor to placeholder graph via the mutated placeholder
         # tensor `out`.
